@@ -867,6 +867,65 @@ theorem lexRun_ok (cfg : LexCfg) (hok : linesOk cfg = true) :
           exact skip hc ht
 
 
+/-- the returned tokens are in text order and do not overlap: each token ends before the next one starts -/
+theorem lexRun_sorted (cfg : LexCfg) (hok : linesOk cfg = true) :
+    ∀ (fuel : Nat) (pre cs : List Char),
+      (lexRun cfg fuel cs pre.length (1 + countNl pre)).1.Pairwise (fun a b => a.stop ≤ b.start) := by
+  intro fuel
+  induction fuel with
+  | zero => intro pre cs; simp [lexRun]
+  | succ fuel ih =>
+    intro pre cs
+    cases cs with
+    | nil => simp [lexRun]
+    | cons c cs =>
+      have skip : c ≠ '\n' →
+          (lexRun cfg fuel cs (pre.length + 1) (1 + countNl pre)).1.Pairwise (fun a b => a.stop ≤ b.start) := by
+        intro hc
+        have h1 : (pre ++ [c]).length = pre.length + 1 := by simp
+        have h2 : 1 + countNl (pre ++ [c]) = 1 + countNl pre := by
+          rw [countNl_append, countNl_singleton, if_neg hc]; omega
+        have := ih (pre ++ [c]) cs
+        rwa [h1, h2] at this
+      simp only [lexRun]
+      split
+      · next hig =>
+        exact skip (by intro e; subst e; exact linesOk_ignore hok (List.contains_iff_mem.mp hig))
+      · split
+        · next r n hfm =>
+          obtain ⟨hr, hs, hn⟩ := firstMatch_some hfm
+          have rok := linesOk_rule hok hr
+          generalize hlex : (c :: cs).take n = lexeme
+          have hsplit : (pre ++ lexeme) ++ (c :: cs).drop n = pre ++ c :: cs := by
+            rw [← hlex, List.append_assoc, List.take_append_drop]
+          have hnl : r.countsNl = false → countNl lexeme = 0 := by
+            intro hc
+            have hm : ruleMayNl r = false := by
+              cases hm : ruleMayNl r with
+              | false => rfl
+              | true => rw [rok.counts hm] at hc; simp at hc
+            rw [← hlex]
+            exact countNl_eq_zero (scanOf_noNl r hm _ n hs)
+          have hline : (if r.countsNl = true then 1 + countNl pre + countNl lexeme else 1 + countNl pre)
+              = 1 + countNl (pre ++ lexeme) := by
+            rw [countNl_append]
+            cases hc : r.countsNl with
+            | true => simp only [if_true]; omega
+            | false => simp only [Bool.false_eq_true, if_false, hnl hc]; omega
+          have h1 : (pre ++ lexeme).length = pre.length + lexeme.length := by simp
+          have hrest := ih (pre ++ lexeme) ((c :: cs).drop n)
+          rw [h1, ← hline] at hrest
+          split
+          · next hret =>
+            refine List.Pairwise.cons ?_ hrest
+            intro b hb
+            have hb' := (lexRun_ok cfg hok fuel (pre ++ lexeme) ((c :: cs).drop n) b (by rw [h1, ← hline]; exact hb)).2
+            simp only [mkTok, rok.endPos hret, if_true]
+            omega
+          · exact hrest
+        · next hfm =>
+          exact skip (by intro e; subst e; exact linesOk_newline_matches hok cs hfm)
+
 /-! ## totality: fuel = length of the input consumes the whole input -/
 
 theorem lexRun_rest (cfg : LexCfg) :
